@@ -67,6 +67,18 @@ def gen_doc(rng, key, maxlen=6, sparse=0.15, boosts=False, burst=0.0, boolean=Fa
         d["_boost"] = rng.choice([0.5, 2.0, 3.0, 0.3, 1.1] if boosts == "fractional" else [0.5, 2.0, 3.0])
     if boolean and rng.random() < 0.6:
         d["b"] = rng.random() < 0.5
+    if boosts:
+        # per-field document boosts (_<field>_boost replaces the document boost for that field only); drawn from a private
+        # stream so that the documents themselves stay what they were
+        import random as _random
+        brng = _random.Random("field-boost:%r:%r" % (key, d.get("t")))
+        vals = [0.5, 2.0, 3.0, 0.3, 1.1] if boosts == "fractional" else [0.5, 2.0, 3.0]
+        if brng.random() < 0.15:
+            d["_t_boost"] = brng.choice(vals)
+        if brng.random() < 0.08:
+            d["_k_boost"] = brng.choice(vals)
+        if brng.random() < 0.05:
+            d["_u_boost"] = brng.choice(vals)
     return d
 
 
